@@ -798,6 +798,10 @@ func drawForeignID(l *core.Lane, id uint16) *Entry {
 // padding, entry order inside directories, and the next-IFD chain. It is drawn once and can be
 // serialised in either byte order with identical offsets.
 type Layout struct {
+	// Garbage != 0 fills the unused bytes of the 4-byte value slot of embedded values shorter
+	// than four bytes with non-zero bytes (TIFF 6.0 leaves them undefined; values are
+	// left-justified in the slot in either byte order).
+	Garbage  uint64
 	Root     *Dir
 	RootName string
 	Blocks   []*block
@@ -839,6 +843,9 @@ type LayoutOpts struct {
 	// files beyond the documented limits (>128 entries, >84 pending out-of-line tags), which the
 	// "returns"/differential properties must survive and C03/C06/C07 skip.
 	Bulk int
+	// BulkSpread distributes the Bulk tags over all directories instead of one (files that stay
+	// within the documented limits but keep the pending-tag buffer well filled).
+	BulkSpread bool
 }
 
 // DrawLayout draws a forward layout for the given root directory and its children.
@@ -979,7 +986,13 @@ func (ly *Layout) Encode(big bool) *Encoded {
 				case e.Size() > 4:
 					bo.PutUint32(out[p+8:], uint32(valOff[e]))
 				default:
-					copy(out[p+8:p+12], e.encode(bo))
+					v := e.encode(bo)
+					copy(out[p+8:p+12], v)
+					if ly.Garbage != 0 {
+						for k := len(v); k < 4; k++ {
+							out[p+8+k] = byte((ly.Garbage>>(8*uint(k)))^uint64(e.ID)) | 1
+						}
+					}
 				}
 				p += 12
 			}
@@ -1089,6 +1102,9 @@ func BuildTIFF(l *core.Lane, r *Record, opts LayoutOpts) *Layout {
 		}
 		d := dirs[l.Intn(len(dirs))]
 		for i := 0; i < opts.Bulk; i++ {
+			if opts.BulkSpread {
+				d = dirs[l.Intn(len(dirs))]
+			}
 			d.Entries = append(d.Entries, drawForeignID(l, uint16(0xd000+i)))
 		}
 	}
@@ -1155,4 +1171,65 @@ func (ly *Layout) SlotProbes() []string {
 		}
 	}
 	return out
+}
+
+// Alt is a set of alternative-but-equivalent encodings of a record's embedded values, applied
+// to a drawn layout without moving any offset: SHORT-valued fields written as LONG (TIFF readers
+// are expected to accept either), ISOSpeedRatings with a second value (count "Any" in Exif),
+// undefined slot padding. The relational properties (C06, C07) and the "returns"/differential
+// ones use it; C03 does not, because what a reader must report for them is not pinned down.
+type Alt struct {
+	AsLong  uint32 // bit per field, see altFields
+	ISO2    uint16 // != 0: ISO becomes SHORT x 2 {iso, ISO2}
+	Garbage uint64
+}
+
+var altFields = []string{"Orientation", "Program", "Metering", "Flash", "Mode", "Focal35", "PixelX", "PixelY", "ISO", "Width", "Height"}
+
+// DrawAlt draws an Alt; the zero lane gives the zero Alt (nothing changed).
+func DrawAlt(l *core.Lane) Alt {
+	var a Alt
+	switch l.Intn(4) {
+	case 1:
+		a.AsLong = uint32(l.Intn(1 << len(altFields)))
+	case 2:
+		a.ISO2 = uint16(1 + l.Intn(65535))
+	case 3:
+		a.AsLong = uint32(l.Intn(1 << len(altFields)))
+		a.ISO2 = uint16(l.Intn(65536))
+	}
+	if l.Chance(1, 3) {
+		a.Garbage = l.U64() | 1
+	}
+	return a
+}
+
+// ApplyAlt rewrites embedded entries of the layout in place.
+func (ly *Layout) ApplyAlt(a Alt) {
+	if ly == nil {
+		return
+	}
+	ly.Garbage = a.Garbage
+	for _, b := range ly.Blocks {
+		if b.dir == nil {
+			continue
+		}
+		for _, e := range b.dir.Entries {
+			if e.Child != nil || e.Field == "" {
+				continue
+			}
+			if e.Field == "ISO" && a.ISO2 != 0 && e.Type == TShort && e.Count == 1 {
+				e.Count = 2
+				e.Shorts = append(e.Shorts, a.ISO2)
+				continue
+			}
+			for i, f := range altFields {
+				if f == e.Field && a.AsLong&(1<<uint(i)) != 0 && e.Type == TShort && e.Count == 1 {
+					e.Type = TLong
+					e.Longs = []uint32{uint32(e.Shorts[0])}
+					e.Shorts = nil
+				}
+			}
+		}
+	}
 }
